@@ -43,13 +43,17 @@ def api(H, VERIF, prog, acqs, nmax, ring, timeout=1200, solver="cadical", name=N
              what="whole real runtime over mock devices, coarse worker schedules, program template %d, %d acquisition(s) of 1..%d frames, ring = %d frames" % (prog, acqs, nmax, ring),
              bounds=dict(acquisitions=acqs, frames_per_acquisition="1..%d" % nmax, ring_frames=ring, client="<=2 map/unmap rounds per acquisition, partial consumption, may hold across stop"))
 
-def inst(H, VERIF, acqs, n, early, ab, cl, ring=3, excl=True, timeout=900, prog=1):
+def inst(H, VERIF, acqs, n, early, ab, cl, ring=3, excl=True, timeout=900, prog=1, poll=False):
     d = ["FIX_N=%d" % n, "FIX_EARLY=%d" % early, "CL_MODE=%d" % cl]
     if ab is not None:
         d.append("FIX_ABORT=%d" % ab)
     if excl:
         d.append("EXCL_C06_FIRST_MAP=1")
-    h = api(H, VERIF, prog, acqs, n, ring, timeout, name="api_A%d_N%d_e%d_%s_cl%d%s" % (acqs, n, early, {None: "sa", 0: "stop", 1: "abort"}[ab], cl, "" if excl else "_firstmap"), excludes=d)
+    if poll:
+        d.append("POLL_DONE=1")
+    h = api(H, VERIF, prog, acqs, n, ring, timeout, name="api_A%d_N%d_e%d_%s_cl%d%s" % (acqs, n, early, {None: "sa", 0: "stop", 1: "abort"}[ab], cl, ("" if excl else "_firstmap") + ("_poll" if poll else "")), excludes=d)
+    if poll:
+        h.what += "; the acquisition finishes on its own and the client polls acquire_get_state before stop/abort"
     h.what += "; source %s the client, %s, client mode %d%s" % ("before" if early else "after", {None: "stop or abort (symbolic)", 0: "stop", 1: "abort"}[ab], cl,
                                                                 "" if excl else " (client's first map ever happens after data exists: known-finding witness)")
     return h
